@@ -153,8 +153,10 @@ def _interesting_dates(cfg, g, k=12):
         else:
             t = lo + datetime.timedelta(days=g.randrange(max((hi - lo).days, 1)))
         if lo <= t <= hi:
-            if g.random() < 0.15:
-                t = t + datetime.timedelta(hours=g.choice([9, 23]), minutes=59)
+            if g.random() < 0.2:
+                # a time of day: it never matters (also when only the seconds or only the microseconds are non-zero)
+                t = t + g.choice([datetime.timedelta(hours=9, minutes=59), datetime.timedelta(hours=23, minutes=59), datetime.timedelta(microseconds=250000),
+                                  datetime.timedelta(seconds=1), datetime.timedelta(hours=23, minutes=59, seconds=59, microseconds=999999)])
             out.append(t)
     return out or [lo + DAY]
 
@@ -271,7 +273,22 @@ def generate(st):
                 c = dict(old, hol=([] if g.random() < 0.5 else [h for h in c['hol'] if old['t0'] <= h <= old['t1']]) if via == 'only_hol' else [],
                          weekend=[5, 6] if via == 'only_hol' else g.choice(WEEKENDS))
             dropped = None
-            if via == 'args' and g.random() < 0.25 and len(set(old['hol'])) >= 2 and len(old['hol']) == len(set(old['hol'])):
+            if via == 'args' and g.random() < 0.2 and len(old['hol']) >= 1 and not old.get('samelist_blocked'):
+                # the caller edits ITS list of holidays in place (one date replaced, as many entries as before) and registers it again
+                hs = list(old['hol'])
+                j_ = g.randrange(len(hs))
+                dropped = hs[j_]
+                ref_ = Ref([_d(h) for h in hs], old['weekend'], _d(old['t0']), _d(old['t1']))
+                for delta in g.sample([-11, -8, -4, -3, 3, 4, 5, 10], 8):
+                    h2 = _d(dropped) + datetime.timedelta(days=delta)
+                    if _d(old['t0']) <= h2 <= _d(old['t1']) and ref_.is_bday(h2):
+                        hs[j_] = _iso(h2)
+                        break
+                if hs.count(dropped):
+                    dropped = None
+                c = dict(old, hol=hs)
+                via = 'same_list'
+            elif via == 'args' and g.random() < 0.25 and len(set(old['hol'])) >= 2 and len(old['hol']) == len(set(old['hol'])):
                 # same range, same weekend, as many entries as before, every one of them a holiday before too - but one date is
                 # gone and another is listed twice
                 hs = sorted(set(old['hol']))
@@ -316,6 +333,7 @@ def execute(trace, ctx=None):
     refs = {}        # target -> Ref of the configuration last registered
     slots = {}
     registered_count = {}
+    held_lists = {}  # target -> the caller's own list of holidays handed over at the last registration by arguments
     stale = {}       # target -> (calendar object registered before the last re-registration, its reference)
     warmed = {}      # target -> True once a table-building query ran on the current object
     state = {'step': 0}
@@ -397,7 +415,14 @@ def execute(trace, ctx=None):
                     res.fault('reregistration')
                     if warmed.get(tkey):
                         res.probe('reregistration-over-warm-table')
-                if via == 'args' or tkey not in refs:
+                if via == 'same_list' and tkey in refs and tkey in held_lists and len(held_lists[tkey]) == len(hol):
+                    lst = held_lists[tkey]
+                    lst[:] = hol                       # the very list object handed over last time, edited in place
+                    lib(lambda: calendar(key, holidays=lst, weekend=weekend, t0=t0, t1=t1), 'calendar(key, same list object edited in place, ...)')
+                    refs[tkey] = Ref(hol, weekend, t0, t1, 'm')
+                    res.probe('same-list-object-edited-and-registered-again')
+                elif via in ('args', 'same_list') or tkey not in refs:
+                    held_lists[tkey] = hol
                     lib(lambda: calendar(key, holidays=hol, weekend=weekend, t0=t0, t1=t1), 'calendar(key, ...)')
                     refs[tkey] = Ref(hol, weekend, t0, t1, 'm')
                 elif via in ('only_hol', 'only_weekend'):
